@@ -325,6 +325,16 @@ func (c *simConn) respond(now time.Duration) {
 		body := strings.Join(args[1:], ":")
 		c.out = append(c.out, chunk{now, hdr(200, len(body))})
 		c.out = append(c.out, chunk{now + time.Duration(us)*time.Microsecond, []byte(body)})
+	case "splitBody":
+		// the body arrives in two segments, cut at <pos>, <us> apart (headers with the first one)
+		pos, us := atoi(args[0]), atoi(args[1])
+		body := strings.Join(args[2:], ":")
+		if pos > len(body) {
+			pos = len(body)
+		}
+		c.out = append(c.out, chunk{now, append(hdr(200, len(body)), body[:pos]...)})
+		c.out = append(c.out, chunk{now + time.Duration(max(us, 1))*time.Microsecond, []byte(body[pos:])})
+		c.w.stat("fault.http.bodyInTwoSegments")
 	case "garbage":
 		c.out = append(c.out, chunk{now, []byte("\x00\x01garbage not http\r\n\r\n")})
 		c.hasEOF, c.eofAt = true, now
